@@ -41,7 +41,8 @@ def _c15(name, features):
         "harness_files": ["kani-crates/c15/src/lib.rs"],
         "features": features,
         "flags": [],
-        "quick": ["resolve_locale_order", "once_then_first_value", "fetch_variants_first_value", "subcontext_order"],
+        "quick": ["resolve_locale_order", "once_then_first_value", "fetch_variants_first_value", "subcontext_order",
+                  "cookie_consulted_only_when_enabled"],
         "timeout": 300,
         "procs": 4,
         "target_tag": "c15",
